@@ -26,6 +26,7 @@ policy body is never reused by the statement proper" is an audit rule on the rea
 IR/SQL, not a theorem.
 -/
 import EdbVerif.Lemmas.PolicyExact
+import EdbVerif.Lemmas.PolicyCond
 
 namespace EdbVerif.C07
 open EdbVerif.Policy
@@ -75,6 +76,24 @@ theorem C07_select_nobypass (sch : Schema) (wf : WF sch) (holds : CondId → Obj
 theorem C07_scope_is_subtyping (sch : Schema) (wf : WF sch) (t : TypeId) (o : Obj) :
     inScope sch ⟨t, false⟩ o = true ↔ Sub sch o.ty t :=
   inScope_iff_sub wf t o
+
+/-- **C07_registration_independent_of_conditions.**  What `try_type_rewrite`
+    registers for a key — nothing, a filter, or a union and over which keys —
+    does not depend on what the policy conditions *are*: replacing every
+    condition (`mapCondS f`: any renaming of the opaque conditions, e.g. adding a
+    `typeof` conjunct to an expression) changes only the leaves of the filter
+    formula.  In particular a key has a rewrite before iff it has one after.
+
+    Scope: in the model a condition is an opaque id, so this says that the
+    *algorithm* never looks at conditions.  The two `typeof` defects fixed by
+    6c16588 lived below this level (the compiler's `type_rewrites` dict was
+    rebound while a policy body was being compiled); "compiling a condition has
+    no side effect on the registry" is guarded by the harness oracles
+    `plan:rewrite-lost`, `corpus:typeof-*` and the SQL audit, not by this theorem. -/
+theorem C07_registration_independent_of_conditions (f : CondId → CondId) (sch : Schema) (k : Key) :
+    entry (mapCondS f sch) k = (entry sch k).mapCond f ∧
+    (entry (mapCondS f sch) k = .none ↔ entry sch k = .none) :=
+  ⟨entry_mapCondS f sch k, entry_registered_iff f sch k⟩
 
 /-- **C07_terminates.**  The two recursions (`has_own_policies` over children,
     and key references through union entries) are bounded by the number of
